@@ -16,9 +16,12 @@ def source_changed(pid):
     try:
         sys.path.insert(0, os.path.join(core.VERIF, "tools"))
         import fingerprint
-        base = json.load(open(os.path.join(core.VERIF, "fingerprints.json"))).get(pid, {})
-        cur = fingerprint.current().get(pid, {})
-        return sorted(f for f in cur if base.get(f) != cur[f])
+        allbase = json.load(open(os.path.join(core.VERIF, "fingerprints.json")))
+        allcur = fingerprint.current()
+        base, cur = dict(allbase.get("_all", {})), dict(allcur.get("_all", {}))
+        base.update(allbase.get(pid, {})); cur.update(allcur.get(pid, {}))
+        # any source file of the package that differs from the committed fingerprint (anchor files of the property or not)
+        return sorted(f for f in set(cur) | set(base) if base.get(f) != cur.get(f))
     except Exception:
         return []
 
@@ -198,7 +201,7 @@ def main():
             print("note: listed finding %s no longer reproduces (%s)" % (fid, text))
     core.write_evidence(pid, tier, seed, time.time() - t0, A, res, len(viol) if viol else (1 if status else 0),
                         extra_assumptions=["tables used by the driver: " + tables_used] +
-                        (["anchor files changed since the committed fingerprints (%s): quick-tier sample sizes x4 on this run" % ", ".join(changed)] if changed else []))
+                        (["source files changed since the committed fingerprints (%s): quick-tier sample sizes x4 on this run" % ", ".join(changed)] if changed else []))
     print("%s %s tier=%s seed=%s: theorems %d/%d, cases %d (distinct non-trivial %d), tie disagreements %d, violations %d, %.1fs"
           % (pid, "OK" if status == 0 else "FAILED", tier, seed, A.get("discharged", 0), A.get("obligations", 0),
              res.evaluations, len(res.nontrivial), len(ties), len(viol) if viol else 0, time.time() - t0))
